@@ -470,20 +470,39 @@ pub fn gen_scenario(rng: &mut Rng, precondition: bool) -> Scenario {
     let w = gen_world(rng);
     // one data value per key (functional pool)
     let datas: Vec<Vec<u8>> = w.keys.iter().map(|_| { let l = match rng.below(5) { 0 => 0, 1 => 32, _ => rng.range(1, 90) as usize }; rng.bytes(l) }).collect();
-    let nm = rng.below(7) as usize;
+    // every 50th scenario is large: more than 255 accounts in the instruction, or more than 255 stored configs
+    let big = rng.below(50) == 0;
+    let big_metas = big && rng.chance(1, 2);
+    let nm = if big_metas { *rng.pick(&[255usize, 256, 257, 300]) } else { rng.below(7) as usize };
     let mut initial = Vec::new();
     for _ in 0..nm {
         let ki = rng.below(w.keys.len() as u64) as usize;
         initial.push(Acct { key: w.keys[ki], signer: rng.chance(1, 3), writable: rng.chance(1, 2), data: datas[ki].clone() });
     }
     let metas: Vec<AccountMeta> = initial.iter().map(|a| AccountMeta { pubkey: a.key, is_signer: a.signer, is_writable: a.writable }).collect();
-    let nc = rng.below(7) as usize;
+    let nc = if big && !big_metas { *rng.pick(&[255usize, 256, 257, 300]) } else { rng.below(7) as usize };
     let mut cfgs = Vec::new();
     let mut dls: Vec<usize> = initial.iter().map(|a| a.data.len()).collect();
     for _ in 0..nc {
         let e = gen_extra(rng, &w, dls.len(), &dls);
         dls.push(rng.range(0, 60) as usize);
         cfgs.push(e);
+    }
+    // near-duplicates: a config repeated with the same 32 config bytes but other flags, or another
+    // kind byte (own-program PDA <-> external PDA, other external index) -- what a cache keyed on too
+    // little would confuse
+    if cfgs.len() >= 2 && rng.chance(1, 4) {
+        let i = rng.below(cfgs.len() as u64) as usize;
+        let j = (i + 1 + rng.below(cfgs.len() as u64 - 1) as usize) % cfgs.len();
+        let mut d = cfgs[i];
+        match rng.below(4) {
+            0 => d.is_writable = (d.is_writable.0 == 0).into(),
+            1 => d.is_signer = (d.is_signer.0 == 0).into(),
+            2 if d.discriminator == 1 => d.discriminator = 128 + rng.below(dls.len().max(1).min(100) as u64) as u8,
+            2 if d.discriminator >= 128 => d.discriminator = if rng.chance(1, 2) { 1 } else { 128 + rng.below(dls.len().max(1).min(100) as u64) as u8 },
+            _ => { d.is_writable = (d.is_writable.0 == 0).into(); }
+        }
+        cfgs[j] = d;
     }
     // the pool: all universe keys (so PDAs are usually missing unless precondition pads them in later)
     let mut pool: Vec<Acct> = w.keys.iter().zip(datas.iter()).map(|(k, d)| Acct { key: *k, signer: rng.chance(1, 4), writable: rng.chance(1, 2), data: d.clone() }).collect();
@@ -565,8 +584,27 @@ static TLV_SHIFT: std::sync::atomic::AtomicUsize = std::sync::atomic::AtomicUsiz
 fn shifted(b: &[u8]) -> emit::Shifted {
     emit::Shifted::new(b, TLV_SHIFT.fetch_add(1, std::sync::atomic::Ordering::Relaxed))
 }
+/// a future that is pending for `n` polls first: fetches of earlier accounts may complete after
+/// fetches of later ones if the helper ever runs them concurrently
+pub struct Delay<T> {
+    n: usize,
+    v: Option<T>,
+}
+impl<T: Unpin> std::future::Future for Delay<T> {
+    type Output = T;
+    fn poll(mut self: std::pin::Pin<&mut Self>, cx: &mut std::task::Context<'_>) -> std::task::Poll<T> {
+        if self.n > 0 {
+            self.n -= 1;
+            cx.waker().wake_by_ref();
+            std::task::Poll::Pending
+        } else {
+            std::task::Poll::Ready(self.v.take().expect("polled after completion"))
+        }
+    }
+}
 pub fn run_offchain(sc: &Scenario, pool: &[Acct]) -> Res<Vec<AccountMeta>> {
     let tlv = shifted(&sc.tlv);
+    let calls = std::cell::Cell::new(0usize);
     let mut ix = Instruction { program_id: sc.w.pid, accounts: sc.metas.clone(), data: sc.w.ix.clone() };
     let r = catch(|| {
         futures::executor::block_on(ExtraAccountMetaList::add_to_instruction::<MT0, _, _>(
@@ -576,7 +614,10 @@ pub fn run_offchain(sc: &Scenario, pool: &[Acct]) -> Res<Vec<AccountMeta>> {
                     Some(a) => Ok(Some(a.data.clone())),
                     None => Err("unknown account".into()),
                 };
-                async move { r }
+                // the earlier the call, the longer the fetch takes
+                let c = calls.get();
+                calls.set(c + 1);
+                Delay { n: 7usize.saturating_sub(c) + (k.to_bytes()[0] as usize % 3), v: Some(r) }
             },
             tlv.bytes(),
         ))
@@ -649,8 +690,22 @@ pub fn run_c06_c08(ctx: &Ctx, prop: &str) -> Report {
     let n_mon = ctx.scale(15_000, 150_000);
     for k in 0..(n_coq + n_mon) {
         let pre = prop == "C08" || rng.chance(2, 3);
-        let sc = gen_scenario(&mut rng, pre);
-        let to_coq = k < n_coq && (pda_count(&sc.cfgs) <= 2);
+        let mut sc = gen_scenario(&mut rng, pre);
+        let mut with_tail = false;
+        // stored data with something behind the entry: zero padding (fine), a short non-zero tail or an
+        // entry whose length runs past the end (malformed: both helpers must refuse), garbage behind a terminator (fine)
+        if rng.chance(1, 8) {
+            match rng.below(5) {
+                0 => sc.tlv.extend_from_slice(&vec![0u8; rng.range(1, 20) as usize]),
+                1 => { let l = rng.range(1, 7) as usize; let mut t = rng.bytes(l); t[l - 1] |= 1; sc.tlv.extend_from_slice(&t); }
+                2 => { sc.tlv.extend_from_slice(&[0x22; 8]); sc.tlv.extend_from_slice(&50u32.to_le_bytes()); sc.tlv.extend_from_slice(&[1, 2, 3]); }
+                3 => { sc.tlv.extend_from_slice(&[0u8; 8]); sc.tlv.extend_from_slice(&rng.bytes(9)); }
+                _ => { sc.tlv.extend_from_slice(&[0x22; 8]); sc.tlv.extend_from_slice(&[0xff; 4]); }
+            }
+            rep.count("stored-data:with-tail");
+            with_tail = true;
+        }
+        let to_coq = k < n_coq && (pda_count(&sc.cfgs) <= 2) && sc.cfgs.len() + sc.metas.len() <= 14;
         let off = run_offchain(&sc, &sc.pool);
         let cpi = run_cpi(&sc, &sc.pool);
         let det = |extra: serde_json::Value| serde_json::json!({"program_id": sc.w.pid.to_string(), "instruction_data": emit::hex(&sc.w.ix),
@@ -710,9 +765,12 @@ pub fn run_c06_c08(ctx: &Ctx, prop: &str) -> Report {
         }
         if to_coq {
             let nt = off.is_ok() && !sc.cfgs.is_empty();
+            // (the config-level cases describe the canonical stored form only)
+            if !with_tail {
             rep.case(format!("COffchain {} {} {} {} {} {}", e_extras(&sc.cfgs), emit::blob(&sc.w.ix), e_key(&sc.w.pid), e_metas(&sc.metas), e_pool_kd(&sc.pool), off.emit(|m| e_metas(m))), nt);
             rep.case(format!("CCpi {} {} {} {} {} {} {}", e_extras(&sc.cfgs), emit::blob(&sc.w.ix), e_key(&sc.w.pid), e_metas(&sc.metas), e_infos(&sc.initial), e_infos(&sc.pool),
                 cpi.emit(|(m, ks)| format!("({}, {})", e_metas(m), emit::list(&ks.iter().map(e_key).collect::<Vec<_>>())))), nt);
+            }
             // the same two runs, with the model reading the stored list from the raw account bytes
             if k % 2 == 0 {
                 rep.case(format!("COffchainD {} {} {} {} {} {}", emit::blob(&sc.tlv), emit::blob(&sc.w.ix), e_key(&sc.w.pid), e_metas(&sc.metas), e_pool_kd(&sc.pool), off.emit(|m| e_metas(m))), nt);
@@ -739,7 +797,7 @@ pub fn run_c07(ctx: &Ctx) -> Report {
         let forward = k % 3 == 2;
         let (sc, fwd_accepted) = if forward { let (s, a) = gen_forward_scenario(&mut rng); (s, Some(a)) } else { (gen_scenario(&mut rng, true), None) };
         rep.count(if forward { "scenario:any-reference" } else { "scenario:resolved-off-chain" });
-        let to_coq_sc = k < n_coq && pda_count(&sc.cfgs) <= 2;
+        let to_coq_sc = k < n_coq && pda_count(&sc.cfgs) <= 2 && sc.cfgs.len() + sc.metas.len() <= 14;
         // an accepted list: the instruction accounts after off-chain resolution
         let base: Vec<Acct> = match run_offchain(&sc, &sc.pool) {
             Res::Ok(ms) => ms.iter().map(|m| {
